@@ -92,7 +92,7 @@ theorem champion_is_fittest (o : EpochOpts K) (s s' : Species K) (top : Org K) (
     intro he
     unfold adjustFitness at h
     rw [he] at h
-    simp [sortOrgsDesc, goInsertionSort] at h
+    simp [sortOrgsDesc, goSort, goInsertionSort] at h
   -- unfold as in C09.adjustFitness_spec
   let adjusted := s.orgs.map (fun x => { x with originalFitness := x.fitness, fitness := C09.adjustedFitness o s x.fitness })
   have hadj : s.orgs.map (adjustOrg (if (s.age - s.ageOfLastImprovement + 1) - o.dropOffAge = 0 then 1 else (s.age - s.ageOfLastImprovement + 1) - o.dropOffAge) s.age o s.orgs.length) = adjusted := by
